@@ -39,6 +39,21 @@ def _block(text, start):
     raise Untranslatable("unbalanced braces")
 
 
+def guard_release_first(src):
+    """_cffi_acquire_reentrant_mutex: is the one-time-init guard (CAS lock 1 -> NULL) released before
+    pthread_mutex_lock(&_cffi_embed_startup_lock)?"""
+    m = re.search(r"static void _cffi_acquire_reentrant_mutex\(void\)\s*\{", src)
+    if not m:
+        raise Untranslatable("_cffi_acquire_reentrant_mutex not found")
+    body = re.sub(r"/\*.*?\*/", " ", src[m.end() - 1:_block(src, m.end() - 1)], flags=re.S)
+    acq = [x.start() for x in re.finditer(r"cffi_compare_and_swap\(&lock,\s*NULL,\s*\(void \*\)1\)", body)]
+    rel = [x.start() for x in re.finditer(r"cffi_compare_and_swap\(&lock,\s*\(void \*\)1,\s*NULL\)", body)]
+    lck = [x.start() for x in re.finditer(r"pthread_mutex_lock\(&_cffi_embed_startup_lock\)", body)]
+    if len(acq) != 1 or len(rel) != 1 or len(lck) != 1 or not acq[0] < min(rel[0], lck[0]):
+        raise Untranslatable("_cffi_acquire_reentrant_mutex: unexpected shape (acquire %r, release %r, lock %r)" % (acq, rel, lck))
+    return rel[0] < lck[0]
+
+
 def init_exits(src):
     """_cffi_initialize_python: does the success exit / the error exit pass PyGILState_Release?
     The body after PyGILState_Ensure is cut into statements; the success path starts there and the
@@ -120,6 +135,7 @@ def translate_gen():
     else:
         raise Untranslatable("the switch is neither in the success branch nor between the block and the release")
     exits = init_exits(src)
+    relfirst = guard_release_first(src)
     return ("""(* C28/Gen.v — REGENERATED on every run by tools/props/c28.py:regen from
      /repo/src/cffi/_embedding.h   (_cffi_start_python: where "_cffi_call_python = ... _cffi_call_python_org"
                                     stands relative to the "if (!called)" block and its success branch)
@@ -130,7 +146,11 @@ Definition gen_switch_in_success : bool := %s.
 
 (* _cffi_initialize_python: (the success exit, the error exit) passes PyGILState_Release(state) *)
 Definition gen_init_exits : bool * bool := (%s, %s).
-""" % (what, "true" if inside else "false", "true" if exits[0] else "false", "true" if exits[1] else "false"))
+
+(* _cffi_acquire_reentrant_mutex: the CAS guard is released before pthread_mutex_lock *)
+Definition gen_guard_released_before_lock : bool := %s.
+""" % (what, "true" if inside else "false", "true" if exits[0] else "false", "true" if exits[1] else "false",
+       "true" if relfirst else "false"))
 
 
 def regen(ctx):
@@ -230,6 +250,12 @@ def scenarios(ctx):
     out.append(dict(name="fail-then-other-library",
                     drv=dict(main="", threads=["c0:1,p5", "w5,c1:2"], mode0="fail", watchdog=ctx.n(8, 12)),
                     scheds=[[(0, 0)] + go(0, 40, "CFail") + [(1, 1)] + go(1, 40)], n=2))
+    # a second thread is already waiting for the start-up mutex when the init code makes its
+    # (supported) recursive call: the recursion must get through the one-time-init guard
+    out.append(dict(name="waiter-then-recursion",
+                    drv=dict(main="w1,p5,d500,p2", threads=["c0:1", "w5,c0:2"], mode0="sync+post", watchdog=ctx.n(8, 12)),
+                    scheds=[[(0, 0)] + go(0, 13) + [(1, 0)] + go(1, 20) + [(0, 0)] + go(0, 12) + go(0, 21)
+                            + go(1, 20)], n=2))
     out.append(dict(name="two-libraries",
                     drv=dict(main="", threads=["b,c0:1", "b,c1:2"]),
                     scheds=[random_fair(rng, [[0], [1]]) for _ in range(ctx.n(3, 10))], n=2))
